@@ -106,6 +106,18 @@ fn before_matches(items: &[It], flat: &[(SegBits, usize)], j: usize) -> bool {
         match it {
             It::WordB => { if k >= 0 { return false; } }
             It::SyllB => { if !(k < 0 || flat[k as usize].1 != flat[(k + 1) as usize].1) { return false; } }
+            It::Set(v) if v.iter().any(|m| matches!(m, It::WordB | It::SyllB)) => {
+                // a set with boundary members: alternatives tried in order, boundaries are zero-width
+                let mut hit = false;
+                for m in v {
+                    match m {
+                        It::WordB => { if k < 0 { hit = true; break; } }
+                        It::SyllB => { if k < 0 || flat[k as usize].1 != flat[(k + 1) as usize].1 { hit = true; break; } }
+                        sm => { if k >= 0 && sm.matches_seg(flat[k as usize].0) { k -= 1; hit = true; break; } }
+                    }
+                }
+                if !hit { return false; }
+            }
             seg_it => { if k < 0 || !seg_it.matches_seg(flat[k as usize].0) { return false; } k -= 1; }
         }
     }
@@ -118,6 +130,17 @@ fn after_matches(items: &[It], flat: &[(SegBits, usize)], j: usize) -> bool {
         match it {
             It::WordB => { if k < n { return false; } }
             It::SyllB => { if !(k >= n || flat[k].1 != flat[k - 1].1) { return false; } }
+            It::Set(v) if v.iter().any(|m| matches!(m, It::WordB | It::SyllB)) => {
+                let mut hit = false;
+                for m in v {
+                    match m {
+                        It::WordB => { if k >= n { hit = true; break; } }
+                        It::SyllB => { if k >= n || flat[k].1 != flat[k - 1].1 { hit = true; break; } }
+                        sm => { if k < n && sm.matches_seg(flat[k].0) { k += 1; hit = true; break; } }
+                    }
+                }
+                if !hit { return false; }
+            }
             seg_it => { if k >= n || !seg_it.matches_seg(flat[k].0) { return false; } k += 1; }
         }
     }
